@@ -31,6 +31,11 @@ def Pc.runningQ : Pc → Option (Nat × Nat)
   | .dqWakeWith _ _ _ k => k.runningQ
   | _ => none
 
+/-- lifetime-erased jobs are created by `sync` only (never through `schedule_job_desync`) -/
+def JobKind.isErased : JobKind → Bool
+  | .erasedDrain _ _ | .erasedBg _ _ => true
+  | _ => false
+
 /-- a continuation of run_one_job_now's callers: sync_drain's or sync_background's loop on queue `q` -/
 def Pc.plainFor (q : Nat) : Pc → Bool
   | .sdCheck q' _ => q' == q
@@ -50,6 +55,7 @@ def Pc.callerOk : Pc → Bool
       (match c with | .caller q => k.plainFor q | _ => true)
   | .pfPollRel _ next => next.callerOk
   | .dqWakeWith _ _ _ k => k.callerOk
+  | .dsPush _ kind => !kind.isErased
   | _ => true
 
 theorem plainFor_holds {q : Nat} {k : Pc} (h : k.plainFor q = true) : k.holds q = true := by
